@@ -28,8 +28,8 @@ ObservedClass(r) == IF r.exc = "" THEN "ok"
                     ELSE IF \E i \in 1..Len(r.mro) : r.mro[i] = "TypeError" THEN "typeerror" ELSE "other"
 ValVerdict(r) ==
   LET e == ArgVerdict(r.argkind, r.d)  o == ObservedClass(r) IN
-  IF o = "other" THEN <<"prop", "undocumented-exception-escaped">>
-  ELSE IF e = "unspecified" THEN <<"ok", "ok">>
+  IF e = "unspecified" THEN <<"ok", "ok">>
+  ELSE IF o = "other" THEN <<"prop", "undocumented-exception-escaped">>
   ELSE IF e = "ok" /\ o # "ok" THEN <<"prop", "valid-setting-rejected">>
   ELSE IF e # "ok" /\ o = "ok" THEN <<"prop", "invalid-setting-accepted">>
   ELSE IF e # o THEN <<"abs", "validation-class">>
